@@ -23,6 +23,7 @@ def props():
 
 
 def one(d):
+    d = os.path.abspath(d)
     tag = d.rstrip("/").replace("/", "_")[-40:]
     wt = "/tmp/nt_%s_%d" % (tag, os.getpid())
     res = {"dir": d, "alarms": {}, "confirm": {}}
@@ -62,9 +63,10 @@ def main():
         results = list(ex.map(one, dirs))
     bad = 0
     for r in results:
-        ok = not r["alarms"]
+        ok = not r["alarms"] and r["confirm"].get("applies")
         bad += 0 if ok else 1
-        print("%-45s %s confirm=%s" % (r["dir"][-45:], "silent" if ok else "FALSE-ALARM", r["confirm"]))
+        verdict = "silent" if ok else ("PATCH-DOES-NOT-APPLY" if not r["confirm"].get("applies") else "FALSE-ALARM")
+        print("%-45s %s confirm=%s" % (r["dir"][-45:], verdict, r["confirm"]))
         for p, lines in r["alarms"].items():
             for l in lines:
                 print("      %s: %s" % (p, l))
